@@ -176,6 +176,16 @@ func (p *Parser) arithmExprValue(compact bool) ArithmExpr {
 			p.followErr(ue.OpPos, ue.Op, noQuote("a literal"))
 		}
 		ue.X = p.arithmExprValue(compact)
+		if !isArithName(ue.X) {
+			// Like Bash, "--5" and "++5" are two unary signs rather than a
+			// decrement or increment, which needs a name to assign to.
+			sign := Minus
+			if ue.Op == Inc {
+				sign = Plus
+			}
+			inner := &UnaryArithm{OpPos: posAddCol(ue.OpPos, 1), Op: sign, X: ue.X}
+			return &UnaryArithm{OpPos: ue.OpPos, Op: sign, X: inner}
+		}
 		return ue
 	case leftParen:
 		if p.quote == paramExpArithm && p.lang.in(LangZsh) {
